@@ -39,6 +39,12 @@ def gen(seed, tier):
     # half of the plans: the bests are also *read* after every generation of every deme, as a user-defined stop
     # condition may do (looking must not change what is reported later)
     pl["c04_midreads"] = (seed // 7) % 2 == 0
+    if seed % 10 == 3 and "levels" in pl:
+        from .. import objectives as _o
+        import random as _r
+
+        # an objective that returns Python ints for some points and floats for others
+        pl["objective"] = _o.gen_objective(_r.Random(seed), pl["dim"], pl["box"], pl["maximize"], ["clipint"])
     if "stacks" in pl and seed % 9 == 0:
         # evaluation caches on; an earlier tree of this process ran the same seeds on another objective
         import copy as _c
